@@ -16,6 +16,8 @@ pub struct ZobristTable {
 impl ZobristTable {
     pub fn new() -> Self {
         let mut rng = rand::thread_rng();
+        #[cfg(flounder_verif)]
+        let mut rng = verif::VerifRng::wrap(rng);
         let mut table_keys = [[[0; SQUARES as usize]; PIECE_COUNT]; COLOR_COUNT];
         let mut castling_right_keys = [[0; CASTLE_RIGHTS_COUNT]; COLOR_COUNT];
         let mut en_passant_target_key = [0; SQUARES as usize];
@@ -88,6 +90,75 @@ impl ZobristTable {
         }
 
         hash
+    }
+}
+
+/// Verification hook: lets a harness choose the key set drawn by `ZobristTable::new()`.
+///
+/// With a seed set (per thread with `set_seed`, or for a whole process with
+/// FLOUNDER_VERIF_ZSEED=s) the key-generation loop above draws from a seeded
+/// generator; without one it draws from `thread_rng()` exactly as before.
+#[cfg(flounder_verif)]
+#[allow(dead_code)]
+pub mod verif {
+    use rand::rngs::{StdRng, ThreadRng};
+    use rand::{RngCore, SeedableRng};
+    use std::cell::Cell;
+
+    thread_local! {
+        static SEED: Cell<Option<u64>> = Cell::new(env_seed());
+    }
+
+    fn env_seed() -> Option<u64> {
+        std::env::var("FLOUNDER_VERIF_ZSEED").ok()?.parse::<u64>().ok()
+    }
+
+    pub fn set_seed(seed: Option<u64>) {
+        SEED.with(|c| c.set(seed));
+    }
+
+    pub enum VerifRng {
+        Seeded(StdRng),
+        Thread(ThreadRng),
+    }
+
+    impl VerifRng {
+        pub fn wrap(rng: ThreadRng) -> Self {
+            match SEED.with(|c| c.get()) {
+                Some(seed) => VerifRng::Seeded(StdRng::seed_from_u64(seed)),
+                None => VerifRng::Thread(rng),
+            }
+        }
+    }
+
+    impl RngCore for VerifRng {
+        fn next_u32(&mut self) -> u32 {
+            match self {
+                VerifRng::Seeded(r) => r.next_u32(),
+                VerifRng::Thread(r) => r.next_u32(),
+            }
+        }
+
+        fn next_u64(&mut self) -> u64 {
+            match self {
+                VerifRng::Seeded(r) => r.next_u64(),
+                VerifRng::Thread(r) => r.next_u64(),
+            }
+        }
+
+        fn fill_bytes(&mut self, dest: &mut [u8]) {
+            match self {
+                VerifRng::Seeded(r) => r.fill_bytes(dest),
+                VerifRng::Thread(r) => r.fill_bytes(dest),
+            }
+        }
+
+        fn try_fill_bytes(&mut self, dest: &mut [u8]) -> Result<(), rand::Error> {
+            match self {
+                VerifRng::Seeded(r) => r.try_fill_bytes(dest),
+                VerifRng::Thread(r) => r.try_fill_bytes(dest),
+            }
+        }
     }
 }
 
